@@ -318,14 +318,17 @@ Definition csv_accepts_delimiter (fmt : N) (d : bytes) : bool :=
   then len_in_bounds csv_delim_min_len csv_delim_max_len (rune_count d) && csv_delim_check (fst (decode_rune d))
   else len_in_bounds csv2_delim_min_len csv2_delim_max_len (rune_count d) && csv2_delim_check (fst (decode_rune d)).
 
-(* The old csv reader's jumpTo after fix 35247f5:
-     for r.r.LineNum() < rowIndex {
-       _, err := r.r.Read()
-       if err == io.EOF { return io.EOF }
-       if err != nil { if not a *csv.ParseError { r.readErr = ...; return r.readErr } } }
-   The csv reader state is the line counter and the number of physical lines left; how many lines
-   one record spans is content dependent ([span]); whether the underlying input reader fails at
-   this point is [io_fails] (any predicate: transient or persistent). *)
+(* The old csv reader (csv/reader.go) at line level.  The csv reader state is the line counter and
+   the number of physical lines left; how many lines one record spans is content dependent
+   ([span]); whether the underlying input reader fails at this point is [io_fails] (any
+   predicate: transient or persistent).
+
+   jumpTo:  for r.r.LineNum() < rowIndex {
+              _, err := r.r.Read()
+              if err == io.EOF { return io.EOF }
+              if err != nil { if not a *csv.ParseError { r.readErr = ...; return r.readErr } } }
+   The inner test exists since fix 35247f5; [failfast] says whether it is there
+   (Gen/Safety.v: csv_jumpto_fails_on_non_parse_error). *)
 Record csvst := mkCsv { numline : nat; lines_left : nat }.
 Inductive jump := JumpDone (s : csvst) | JumpEOF | JumpFailed | JumpOutOfFuel.
 (* a record or a csv.ParseError; io.EOF; any other error (errInvalidDelim, an input failure) *)
@@ -343,32 +346,155 @@ Section Jump.
     else if Nat.eqb (lines_left s) 0 then (mkCsv (S (numline s)) 0, CsvEOF)
     else (mkCsv (numline s + span s) (lines_left s - span s), CsvRecOrParseErr).
 
-  Fixpoint jump_to (fuel : nat) (usable : bool) (row : nat) (s : csvst) : jump :=
+  Fixpoint jump_gen (failfast : bool) (fuel : nat) (usable : bool) (row : nat) (s : csvst) : jump :=
     match fuel with
     | O => JumpOutOfFuel
     | S k =>
         if Nat.ltb (numline s) row then
           match csv_read usable s with
           | (_, CsvEOF) => JumpEOF
-          | (_, CsvOtherErr) => JumpFailed
-          | (s', CsvRecOrParseErr) => jump_to k usable row s'
+          | (s', CsvOtherErr) => if failfast then JumpFailed else jump_gen failfast k usable row s'
+          | (s', CsvRecOrParseErr) => jump_gen failfast k usable row s'
           end
         else JumpDone s
+    end.
+  Definition jump_to := jump_gen true.
+  Definition jump_to_old := jump_gen false.
+
+  (* ---- the whole reader: Read / checkHeader ---- *)
+  (* content dependent facts about the record the next csv Read yields *)
+  Variable parse_err : csvst -> bool.   (* a csv.ParseError *)
+  Variable matches : csvst -> bool.     (* the target xpath selects the record *)
+  Variable header_ok : csvst -> bool.   (* the header row carries the declared column names *)
+  (* the shape flags of Gen/Safety.v *)
+  Variable latched_first : bool.        (* Read starts with `if r.readErr != nil { return r.readErr }` *)
+  Variable read_latches : bool.         (* Read stores a non-ParseError in r.readErr *)
+  Variable failfast : bool.             (* jumpTo, as above *)
+
+  Record crd := mkCrd { cr_st : csvst; cr_header_checked : bool; cr_latched : bool }.
+  Inductive cres :=
+  | CrRecord | CrPlainErr            (* a node; "failed to fetch record" for a ParseError: continuable *)
+  | CrEOF | CrFatalHeader | CrLatched (* io.EOF; ErrInvalidHeader; the remembered r.readErr instance *)
+  | CrOutOfFuel.
+
+  (* the `read:` loop of Read: skip the records the target xpath filters out *)
+  Fixpoint read_loop (fuel : nat) (usable : bool) (r : crd) : crd * cres :=
+    match fuel with
+    | O => (r, CrOutOfFuel)
+    | S k =>
+        let s := cr_st r in
+        match csv_read usable s with
+        | (s', CsvEOF) => (mkCrd s' true (cr_latched r), CrEOF)
+        | (s', CsvOtherErr) =>
+            if read_latches then (mkCrd s' true true, CrLatched) else (mkCrd s' true (cr_latched r), CrPlainErr)
+        | (s', CsvRecOrParseErr) =>
+            if parse_err s then (mkCrd s' true (cr_latched r), CrPlainErr)
+            else if matches s then (mkCrd s' true (cr_latched r), CrRecord)
+            else read_loop k usable (mkCrd s' true (cr_latched r))
+        end
     end.
 
-  (* before the fix: every error but io.EOF is ignored *)
-  Fixpoint jump_to_old (fuel : nat) (usable : bool) (row : nat) (s : csvst) : jump :=
-    match fuel with
-    | O => JumpOutOfFuel
-    | S k =>
-        if Nat.ltb (numline s) row then
-          match csv_read usable s with
-          | (_, CsvEOF) => JumpEOF
-          | (s', _) => jump_to_old k usable row s'
-          end
-        else JumpDone s
+  (* checkHeader; None = no error *)
+  Definition check_header (fuel : nat) (usable : bool) (hdr : option nat) (data : nat) (r : crd) : crd * option cres :=
+    let skip (r : crd) :=
+      match jump_gen failfast fuel usable (data - 1) (cr_st r) with
+      | JumpDone s' => (mkCrd s' true (cr_latched r), None)
+      | JumpEOF => (mkCrd (cr_st r) true (cr_latched r), Some CrEOF)
+      | JumpFailed => (mkCrd (cr_st r) true true, Some CrLatched)
+      | JumpOutOfFuel => (r, Some CrOutOfFuel)
+      end in
+    match hdr with
+    | None => skip r
+    | Some h =>
+        match jump_gen failfast fuel usable (h - 1) (cr_st r) with
+        | JumpOutOfFuel => (r, Some CrOutOfFuel)
+        | JumpEOF => (mkCrd (cr_st r) true (cr_latched r), Some CrFatalHeader)
+        | JumpFailed => (mkCrd (cr_st r) true true, Some CrFatalHeader)
+        | JumpDone s1 =>
+            match csv_read usable s1 with
+            | (s2, CsvRecOrParseErr) =>
+                if parse_err s1 || negb (header_ok s1) then (mkCrd s2 true (cr_latched r), Some CrFatalHeader)
+                else skip (mkCrd s2 true (cr_latched r))
+            | (s2, _) => (mkCrd s2 true (cr_latched r), Some CrFatalHeader)
+            end
+        end
     end.
+
+  Definition csv_reader_read (fuel : nat) (usable : bool) (hdr : option nat) (data : nat) (r : crd) : crd * cres :=
+    if latched_first && cr_latched r then (r, CrLatched)
+    else if cr_header_checked r then read_loop fuel usable r
+    else match check_header fuel usable hdr data r with
+         | (r', Some e) => (r', e)
+         | (r', None) => read_loop fuel usable r'
+         end.
 End Jump.
+
+Definition cres_terminal (c : cres) : bool :=
+  match c with CrEOF | CrFatalHeader | CrLatched => true | _ => false end.
+
+(* ---- the old fixed-length reader with a by_rows envelope (fixedlength/reader.go) ---- *)
+(* The line source: [fl_left] non-empty lines, then a clean end or a persistent failure. *)
+Record flst := mkFl { fl_left : nat; fl_fault : bool }.
+Inductive flres := FlRecord | FlEOF | FlFatal (* ErrInvalidEnvelope *) | FlRawErr (* the input error as is: continuable *) | FlOutOfFuel.
+
+Section FixedByRows.
+  Variable rows : nat.                  (* envelopeDecl.byRows() *)
+  Variable fl_matches : flst -> bool.   (* the target xpath selects the envelope *)
+  Variable clean_eof_only : bool.       (* Gen/Safety.v: fixed_by_rows_raw_error_only_clean_eof *)
+
+  (* readByRowsEnvelope: `for i := 0; i < byRows; i++ { line, err := readLine(); if err != nil {
+       if err == io.EOF && i == 0 { return nil, err }; return nil, ErrInvalidEnvelope(...) } ... }` *)
+  Fixpoint read_rows (i todo : nat) (s : flst) : flst * option flres :=
+    match todo with
+    | O => (s, None)
+    | S k =>
+        if Nat.eqb (fl_left s) 0 then
+          if fl_fault s then (s, Some (if Nat.eqb i 0 && negb clean_eof_only then FlRawErr else FlFatal))
+          else (s, Some (if Nat.eqb i 0 then FlEOF else FlFatal))
+        else read_rows (S i) k (mkFl (fl_left s - 1) (fl_fault s))
+    end.
+
+  (* Read: `readEnvelope:` loop over the envelopes the target xpath filters out *)
+  Fixpoint fl_read (fuel : nat) (s : flst) : flst * flres :=
+    match fuel with
+    | O => (s, FlOutOfFuel)
+    | S k =>
+        match read_rows 0 rows s with
+        | (s', Some e) => (s', e)
+        | (s', None) => if fl_matches s then (s', FlRecord) else fl_read k s'
+        end
+    end.
+End FixedByRows.
+
+Definition flres_terminal (c : flres) : bool :=
+  match c with FlEOF | FlFatal => true | _ => false end.
+
+(* ---- running the two reader models on a described input (correspondence) ---- *)
+(* the good lines, then the failure (or the clean end) for ever *)
+Definition csv_tail_fails (fault : bool) (s : csvst) : bool := fault && Nat.eqb (lines_left s) 0.
+Definition cres_code (c : cres) : N :=
+  match c with CrRecord => 0 | CrPlainErr => 1 | CrEOF => 2 | CrFatalHeader => 3 | CrLatched => 4 | CrOutOfFuel => 9 end.
+Definition flres_code (c : flres) : N :=
+  match c with FlRecord => 0 | FlRawErr => 1 | FlEOF => 2 | FlFatal => 3 | FlOutOfFuel => 9 end.
+
+(* one-line records without quotes, no target filter: Reads until the first terminal result (at
+   most [n] of them), their result classes *)
+Fixpoint csv_run (n : nat) (hdr : option nat) (data : nat) (hok fault : bool) (r : crd) : list N :=
+  match n with
+  | O => []
+  | S k =>
+      let '(r', c) := csv_reader_read (fun _ => 1) (csv_tail_fails fault) (fun _ => false) (fun _ => true) (fun _ => hok)
+                        csv_read_returns_latched_first csv_read_latches_non_parse_error csv_jumpto_fails_on_non_parse_error
+                        (lines_left (cr_st r) + 1) true hdr data r in
+      cres_code c :: (if cres_terminal c then [] else csv_run k hdr data hok fault r')
+  end.
+Fixpoint fl_run (n : nat) (rows : nat) (s : flst) : list N :=
+  match n with
+  | O => []
+  | S k =>
+      let '(s', c) := fl_read rows (fun _ => true) fixed_by_rows_raw_error_only_clean_eof (fl_left s + 1) s in
+      flres_code c :: (if flres_terminal c then [] else fl_run k rows s')
+  end.
 
 (* ============================================================================================ *)
 (* 5. removeLastFilterInXPath                                                                    *)
@@ -649,6 +775,10 @@ Inductive c03case :=
 | CFixed (start_pos len : Z) (line observed : bytes)
 | CTemplates (g : list (list (option nat))) (root : list (option nat)) (accepted : bool)
 | CIntLit (fmt : N) (l : intlit) (accepted : bool)          (* 0 fixed-length by_rows, 1 csv2 rows, 2 fixedlength2 rows *)
+| CCsvRun (hdr : option nat) (data lines : nat) (header_ok fault : bool) (observed : list N)
+    (* old csv reader: one-line records, the header row matching or not, a clean end or a persistent
+       failure after the last line; the classes of the Reads up to the terminal one *)
+| CFlRun (rows lines : nat) (fault : bool) (observed : list N)   (* fixed-length by_rows *)
 | CBound (input_len reads : N).
 
 Definition READ_SLACK : N := 2.
@@ -679,5 +809,9 @@ Definition check_case (c : c03case) : bool :=
                else if N.eqb fmt 1 then schema_int csv2_unmarshal_checked csv2_rows_min l
                else schema_int fixed2_unmarshal_checked fixed2_rows_min l in
       Bool.eqb (match r with IStored _ => true | IRejected => false end) accepted
+  | CCsvRun hdr data lines hok fault observed =>
+      list_eqb N.eqb (csv_run (lines + 2) hdr data hok fault (mkCrd (mkCsv 0 lines) false false)) observed
+  | CFlRun rows lines fault observed =>
+      list_eqb N.eqb (fl_run (lines + 2) rows (mkFl lines fault)) observed
   | CBound len reads => N.leb reads (len + READ_SLACK)
   end.
